@@ -124,7 +124,7 @@ type C09 struct{}
 func (e *C09) ID() string    { return "C09" }
 func (e *C09) Level() string { return "exploration" }
 func (e *C09) Rule() string {
-	return "section A (exhaustive): every single-byte perturbation (24 positions x 256 values) of each of the 31 canonical headers; section B: every canonical header behind short prefixes (byte order marks, blanks, zeros: a signature is where the format puts it), ftyp headers with brand tokens at offsets that are not brand slots, every canonical header followed by random suffixes of length 0..8 KiB and every truncation to 0..23 bytes; section C: seeded random 24-byte strings and two-byte perturbations. Every stream goes through Buf(b), Buf(b[:24]), Scan, ScanBuf and ReadAt (also over an io.ReaderAt that reports io.EOF together with the last bytes), and again through Scan and ScanBuf over readers that deliver it one byte at a time, in uneven short reads, and with the last bytes together with io.EOF, and through Scan on seekable / ReadAt-capable readers that were already read from; suffixes include runs of the tokens the predicates look for (brands, magic numbers) behind headers whose own slots were blanked. Oracle: all five agree on the type and on the error class; bytes beyond 24 do not matter; ScanBuf leaves the whole stream readable; fewer than 24 bytes gives an error and no type; ErrImageTypeNotFound exactly when the type is unknown; a reported type F requires F's signature per the harness's independent table (liberal form); a header carrying exactly one documented standard signature (strict form, with the precedences CR2 and CRW over TIFF (more specific over generic), major brand among ftyp formats) must be reported as that format; where two signatures match without a documented precedence either is accepted. Non-trivial: the header is within two bytes of a canonical header; distinct = (nearest canonical header, position, result)."
+	return "section A (exhaustive): every single-byte perturbation (24 positions x 256 values) of each of the 31 canonical headers; section B: every canonical header behind short prefixes (byte order marks, blanks, zeros: a signature is where the format puts it), ftyp headers with brand tokens at offsets that are not brand slots, every canonical header followed by random suffixes of length 0..8 KiB and every truncation to 0..23 bytes; section C: seeded random 24-byte strings and two-byte perturbations. Every stream goes through Buf(b), Buf(b[:24]), Scan, ScanBuf and ReadAt (also over an io.ReaderAt that reports io.EOF together with the last bytes), and again through Scan and ScanBuf over readers that deliver it one byte at a time, in uneven short reads, with the last bytes together with io.EOF, and with every other Read returning (0, nil), and through Scan on seekable / ReadAt-capable readers that were already read from; suffixes include runs of the tokens the predicates look for (brands, magic numbers) behind headers whose own slots were blanked. Oracle: all five agree on the type and on the error class; bytes beyond 24 do not matter; ScanBuf leaves the whole stream readable; fewer than 24 bytes gives an error and no type; ErrImageTypeNotFound exactly when the type is unknown; a reported type F requires F's signature per the harness's independent table (liberal form); a header carrying exactly one documented standard signature (strict form, with the precedences CR2 and CRW over TIFF (more specific over generic), major brand among ftyp formats) must be reported as that format; where two signatures match without a documented precedence either is accepted. Non-trivial: the header is within two bytes of a canonical header; distinct = (nearest canonical header, position, result)."
 }
 func (e *C09) Assumptions() []string {
 	return []string{"the signature table is the harness's own, written from the format definitions cited in the package comments; JPEG 2000 is reported as image/jpeg (pinned by the existing test suite)"}
@@ -186,14 +186,19 @@ func sniffAll(c *core.Ctx, b []byte) (imagetype.ImageType, bool) {
 	}
 	// the same stream delivered in pieces (one byte at a time, uneven short reads, last bytes
 	// together with io.EOF): a sniffer that trusts a single Read would disagree with itself
-	for k, sched := range [][]int{{1}, {10, 3, 7, 1}, nil} {
+	for k, sched := range [][]int{{1}, {10, 3, 7, 1}, nil, {10, 5}} {
 		r1 := mon.NewRS(b)
 		r1.Sched = sched
 		r1.EOFWithData = sched == nil
-		t1, e1 := imagetype.Scan(mon.OnlyReader{R: r1})
 		r2 := mon.NewRS(b)
 		r2.Sched = sched
 		r2.EOFWithData = sched == nil
+		if k == 3 {
+			// every other Read delivers nothing and no error (legal, if discouraged): the stream
+			// is the same stream
+			r1.ZeroEvery, r2.ZeroEvery = 2, 2
+		}
+		t1, e1 := imagetype.Scan(mon.OnlyReader{R: r1})
 		t2, e2 := imagetype.ScanBuf(bufio.NewReaderSize(mon.OnlyReader{R: r2}, 32))
 		c.Rec.Eval(2)
 		if t1 != rs[0].t || (e1 == nil) != (rs[0].err == nil) {
